@@ -217,8 +217,8 @@ func extractCell(c *report.Ctx, s fsmSpec, m *fsmModel, f *ssa.Function) string 
 				name = "invoke." + strings.TrimPrefix(cal, coreP+".InvokeFlowSynchronization.")
 			case cal == coreP+".Suspendable.SuspendUnsafe":
 				name = "park"
-			case strings.HasSuffix(cal, ".subscribeUnsafe"):
-				name = "subscribe"
+			case cal == coreP+".ValidateInternalAgentEvent", cal == coreP+".ValidateExternalAgentEvent":
+				// pure; that a subscription is recorded only for a validated event is checked in C13 (R-GUARD .../validated)
 			case cal == coreP+".MapErrorToAgentInfoErrorType", cal == "builtin.len":
 				// pure
 			default:
@@ -242,6 +242,9 @@ func extractCell(c *report.Ctx, s fsmSpec, m *fsmModel, f *ssa.Function) string 
 			}
 		case *ssa.MapUpdate:
 			name = "mapupdate " + an.Path(x.Map)
+			if fr, ok := an.AsField(x.Map); ok && fr.Field == "events" && (fr.Struct == coreP+".InternalAgent" || fr.Struct == coreP+".ExternalAgent") {
+				name = "subscribe"
+			}
 		case *ssa.Send:
 			name = "send"
 		case *ssa.Panic:
@@ -251,13 +254,65 @@ func extractCell(c *report.Ctx, s fsmSpec, m *fsmModel, f *ssa.Function) string 
 			effs = append(effs, eff{in, name, cyc[in.Block()]})
 		}
 	})
-	// order: by dominance (chain), ties by block index / position
-	sort.SliceStable(effs, func(i, j int) bool {
-		if an.InstrDominates(effs[i].in, effs[j].in) && !an.InstrDominates(effs[j].in, effs[i].in) {
-			return true
+	// order: control-flow order (a before b when b can follow a but a cannot follow b); effects that
+	// can each follow the other (same loop) or neither keep their order of discovery. Block numbering
+	// plays no role, so the listing does not depend on how the compiler laid the blocks out.
+	{
+		reach := map[*ssa.BasicBlock]map[*ssa.BasicBlock]bool{}
+		reachFrom := func(b *ssa.BasicBlock) map[*ssa.BasicBlock]bool {
+			if r, ok := reach[b]; ok {
+				return r
+			}
+			r := map[*ssa.BasicBlock]bool{}
+			var walk func(x *ssa.BasicBlock)
+			walk = func(x *ssa.BasicBlock) {
+				for _, s := range x.Succs {
+					if !r[s] {
+						r[s] = true
+						walk(s)
+					}
+				}
+			}
+			walk(b)
+			reach[b] = r
+			return r
 		}
-		return false
-	})
+		follows := func(a, b ssa.Instruction) bool { // b can execute after a
+			if a.Block() == b.Block() {
+				for _, in := range a.Block().Instrs {
+					if in == a {
+						return true
+					}
+					if in == b {
+						break
+					}
+				}
+				return reachFrom(a.Block())[a.Block()]
+			}
+			return reachFrom(a.Block())[b.Block()]
+		}
+		before := func(a, b ssa.Instruction) bool { return follows(a, b) && !follows(b, a) }
+		var sorted []eff
+		rest := append([]eff(nil), effs...)
+		for len(rest) > 0 {
+			pick := 0
+			for i := range rest {
+				first := true
+				for j := range rest {
+					if i != j && before(rest[j].in, rest[i].in) {
+						first = false
+					}
+				}
+				if first {
+					pick = i
+					break
+				}
+			}
+			sorted = append(sorted, rest[pick])
+			rest = append(rest[:pick], rest[pick+1:]...)
+		}
+		effs = sorted
+	}
 	// chain check: every non-loop effect must precede the next on all paths
 	chainOK := true
 	evIdx := map[ssa.Instruction]int{}
@@ -317,7 +372,7 @@ func extractCell(c *report.Ctx, s fsmSpec, m *fsmModel, f *ssa.Function) string 
 				cal := an.Callee(call)
 				if strings.Contains(cal, "FlowSynchronization.") {
 					kinds["flowerr"] = true
-				} else if strings.HasSuffix(cal, ".subscribeUnsafe") {
+				} else if cal == coreP+".ValidateInternalAgentEvent" || cal == coreP+".ValidateExternalAgentEvent" {
 					kinds["subscribeerr"] = true
 				} else {
 					kinds["result of "+cal] = true
